@@ -81,6 +81,7 @@ impl<T: Types> RaftLogWriter<T> for RaftLog<T> {
     where I: IntoIterator<Item = (T::LogId, T::LogPayload)> {
         let mut segment = self.wal.last_segment();
         for (log_id, payload) in entries {
+            Self::check_log_index(&log_id)?;
             let record = WALRecord::Append(log_id, payload);
             segment = self.append_and_apply(&record)?;
         }
@@ -109,6 +110,8 @@ impl<T: Types> RaftLogWriter<T> for RaftLog<T> {
     fn purge(&mut self, upto: T::LogId) -> Result<Segment, io::Error> {
         // NOTE that only when the purge record is committed, the chunk file can
         // be removed.
+
+        Self::check_log_index(&upto)?;
 
         let purged = self.log_state().purged.as_ref();
 
@@ -166,6 +169,18 @@ impl<T: Types> RaftLogWriter<T> for RaftLog<T> {
 }
 
 impl<T: Types> RaftLog<T> {
+    /// A log index of `u64::MAX` has no next index: refuse it instead of
+    /// overflowing in `Types::next_log_index()`.
+    fn check_log_index(log_id: &T::LogId) -> Result<(), io::Error> {
+        if T::log_index(log_id) == u64::MAX {
+            return Err(io::Error::new(
+                io::ErrorKind::InvalidInput,
+                format!("Log index {} is not supported", u64::MAX),
+            ));
+        }
+        Ok(())
+    }
+
     /// Dump the RaftLog data for debugging purposes.
     ///
     /// Returns a `DumpRaftLog` struct containing a complete snapshot of the
